@@ -269,7 +269,7 @@ fn parse_at_rule(
     if let Token::AtKeyword(x) = &*peek {
         input.next().ok();
         let at_keyword: &str = &x;
-        if at_keyword == "import" && ss.options.import_sign.is_some() {
+        if at_keyword.eq_ignore_ascii_case("import") && ss.options.import_sign.is_some() {
             // process at-import if needed
             let import_sign = ss.options.import_sign.clone().unwrap();
             let start_pos = input.position();
@@ -394,10 +394,18 @@ fn parse_at_rule(
             let output_index = ss.cur_output_utf8_len();
             ss.append_token(st, input, None);
             let x: &str = &x;
-            let contain_rule_list = matches!(
-                x,
-                "media" | "supports" | "document" | "layer" | "container" | "scope" | "starting-style"
-            );
+            // (at-rule names are ASCII case-insensitive)
+            let contain_rule_list = [
+                "media",
+                "supports",
+                "document",
+                "layer",
+                "container",
+                "scope",
+                "starting-style",
+            ]
+            .iter()
+            .any(|name| x.eq_ignore_ascii_case(name));
             loop {
                 let r = input.try_parse::<_, _, ParseError<()>>(|input| {
                     let next = input.next()?;
